@@ -126,6 +126,19 @@ impl Prop for C16 {
                 }
             }
         }
+        // long-lived contexts (the sequence number passes 255 / 256 / 257 in each direction) and very large messages
+        for key in [2usize, 1] {
+            for via_handshake in [false, true] {
+                cs.push(Case::Sequence { key, ops: vec![Op::Wrap(1); 300], via_handshake });
+                cs.push(Case::Sequence { key, ops: vec![Op::Unwrap(2); 300], via_handshake });
+                cs.push(Case::Sequence { key, ops: (0..600).map(|i| if i % 2 == 0 { Op::Wrap(3) } else { Op::Unwrap(0) }).collect(), via_handshake });
+                cs.push(Case::Sequence { key, ops: (0..520).map(|i| if i < 260 { Op::Unwrap(1) } else { Op::Wrap(1) }).collect(), via_handshake });
+            }
+            for big in [65519usize, 65520, 65521, 65535, 65536, 70000, 200000] {
+                cs.push(Case::Sequence { key, ops: vec![Op::Wrap(big), Op::Wrap(3), Op::Unwrap(2)], via_handshake: false });
+                cs.push(Case::Sequence { key, ops: vec![Op::Unwrap(big), Op::Wrap(3), Op::Unwrap(big), Op::Wrap(big)], via_handshake: false });
+            }
+        }
         let mut tlens: Vec<usize> = (0..=17).collect();
         tlens.extend([100, 256]);
         if tier == Tier::Thorough {
@@ -165,7 +178,7 @@ impl Prop for C16 {
         json!({"idx": idx, "case": self.cases[idx as usize], "keys": keys().iter().map(|k| hex(k)).collect::<Vec<_>>()})
     }
     fn rule(&self) -> String {
-        "cases: [sequence] every sequence of <=3 (<=4 thorough) operations over {wrap(len), unwrap(peer-sealed len)} with len in {0,1,2,3,15,16,17,255,256,1000}, for 5 exported session keys, on the context built by the public constructor and (sequences <=2) on the one built by a real NEGOTIATE/CHALLENGE handshake: every wrap output must be byte-identical to reference MS-NLMP SEAL+SIGN with carried-over cipher state and sequence numbers, every unwrap must return the plaintext; [tamper] for every peer-sealed message of length 0..17, 100, 256 at stream position 0 and 1: every single-bit flip, truncations, extensions by 1..3 bytes, reflection, rewritten sequence numbers: all must be rejected. Non-trivial: sequences of >=2 operations and all tamper cases.".into()
+        "cases: [sequence] every sequence of <=3 (<=4 thorough) operations over {wrap(len), unwrap(peer-sealed len)} with len in {0,1,2,3,15,16,17,255,256,1000}, for 5 exported session keys, on the context built by the public constructor and (sequences <=2) on the one built by a real NEGOTIATE/CHALLENGE handshake: every wrap output must be byte-identical to reference MS-NLMP SEAL+SIGN with carried-over cipher state and sequence numbers, every unwrap must return the plaintext; plus long-lived contexts (300 wraps, 300 unwraps, 600 alternating, 260 unwraps then 260 wraps: the sequence numbers pass 256 in each direction) and messages of 65519..200000 bytes followed by further traffic; [tamper] for every peer-sealed message of length 0..17, 100, 256 at stream position 0 and 1: every single-bit flip, truncations, extensions by 1..3 bytes, reflection, rewritten sequence numbers: all must be rejected. Non-trivial: sequences of >=2 operations and all tamper cases.".into()
     }
     fn assumptions(&self) -> Vec<String> {
         vec![
